@@ -11,7 +11,7 @@ from ..variants import Variant
 MOD = "label_map.py"
 
 
-def classify_reader(fn: ast.FunctionDef, map_param: str, seq_param: str) -> tuple[str, list[ast.AST]]:
+def classify_reader(fn: ast.FunctionDef, map_param: str, seq_param: str, out_param: str | None = None) -> tuple[str, list[ast.AST]]:
     """Index-role classification of a label-map reader.
 
     A value is map-derived if it is an element of the map parameter (loop variable over it, over
@@ -30,6 +30,7 @@ def classify_reader(fn: ast.FunctionDef, map_param: str, seq_param: str) -> tupl
         for tgt, it in gens:
             if isinstance(it, ast.Name) and it.id == map_param and isinstance(tgt, ast.Name):
                 derived.add(tgt.id)
+            # `for i in range(len(map))` / `for i, _ in enumerate(..)`: i is a position, map[i] is map-derived (handled below)
             if isinstance(it, ast.Call) and norm(it.func) == "zip" and isinstance(tgt, ast.Tuple):
                 for a, t in zip(it.args, tgt.elts):
                     if isinstance(a, ast.Name) and a.id == map_param and isinstance(t, ast.Name):
@@ -56,6 +57,8 @@ def classify_reader(fn: ast.FunctionDef, map_param: str, seq_param: str) -> tupl
             bname = base.id if isinstance(base, ast.Name) else None
             if isinstance(n.ctx, ast.Load) and bname == seq_param:
                 gather.append(n)
+            elif isinstance(n.ctx, ast.Load) and out_param is not None and bname == out_param:
+                scatter.append(n)  # product position chosen by the map element: substrate i -> product map[i]
             elif isinstance(n.ctx, ast.Store) and bname != seq_param:
                 scatter.append(n)
             elif isinstance(n.ctx, ast.Load) and bname != map_param:
